@@ -223,4 +223,207 @@ end
 theorem mentions_iff_mem_uses (x : String) (t : Term) : t.mentions x = true ↔ x ∈ t.uses.map Prod.fst :=
   ⟨mem_uses_of_mentions x t, mentions_of_mem_uses x t⟩
 
+/-! ### Freshness of declared names; the layout predicates of C16 -/
+
+/-- Names of all declarations (any type), in order. -/
+def declNames : List Item → List String
+  | [] => []
+  | .decl _ n _ :: rest => n :: declNames rest
+  | _ :: rest => declNames rest
+
+/-- Names of the declarations `buildEnvIL` inlines, in order. -/
+def ilNames : List Item → List String
+  | [] => []
+  | .decl ty n _ :: rest => if isILTy ty then n :: ilNames rest else ilNames rest
+  | _ :: rest => ilNames rest
+
+/-- Side condition: no declared name is a plugin constant (`true`, `IL_TRUE`, `HEX_…`): the checker accepts a use
+    of such a name without looking for a declaration. -/
+def constFree (items : List Item) : Bool := (declNames items).all (fun n => !isPluginConst n)
+
+theorem ilNames_sub_declNames : ∀ (items : List Item) (x : String), x ∈ ilNames items → x ∈ declNames items
+  | [], _, h => by simp [ilNames] at h
+  | .comment _ :: rest, x, h => ilNames_sub_declNames rest x h
+  | .ret _ :: rest, x, h => ilNames_sub_declNames rest x h
+  | .decl ty n _ :: rest, x, h => by
+      simp only [ilNames] at h
+      simp only [declNames, List.mem_cons]
+      split at h
+      · rcases List.mem_cons.1 h with h | h
+        · exact Or.inl h
+        · exact Or.inr (ilNames_sub_declNames rest x h)
+      · exact Or.inr (ilNames_sub_declNames rest x h)
+
+theorem name_mem_declNames : ∀ (items : List Item) (d : Item), d ∈ items → d.isILDecl = true →
+    d.name ∈ declNames items
+  | [], _, h, _ => by simp at h
+  | it :: rest, d, h, hd => by
+      rcases List.mem_cons.1 h with h | h
+      · subst h
+        cases d with
+        | comment s => simp [Item.isILDecl] at hd
+        | ret t => simp [Item.isILDecl] at hd
+        | decl ty n rhs => simp [declNames, Item.name]
+      · have := name_mem_declNames rest d h hd
+        cases it with
+        | comment s => exact this
+        | ret t => exact this
+        | decl ty n rhs => exact List.mem_cons_of_mem _ this
+
+theorem wfFrom_fresh (pre : List String) : ∀ (items : List Item) (D : List String), WfFrom pre D items →
+    ∀ n ∈ declNames items, n ∉ D ∧ n ∉ pre
+  | [], _, h, _, _ => by simp [WfFrom] at h
+  | .comment _ :: _, _, h, _, _ => by simp [WfFrom] at h
+  | .ret _ :: rest, D, h, n, hn => by
+      simp only [WfFrom] at h
+      rw [h.1] at hn
+      simp [declNames] at hn
+  | .decl _ m _ :: rest, D, h, n, hn => by
+      simp only [WfFrom] at h
+      obtain ⟨hD, hpre, _, hrest⟩ := h
+      simp only [declNames, List.mem_cons] at hn
+      rcases hn with hn | hn
+      · subst hn
+        exact ⟨by simpa using hD, by simpa using hpre⟩
+      · have := wfFrom_fresh pre rest (n := n) (m :: D) hrest hn
+        exact ⟨fun h => this.1 (List.mem_cons_of_mem _ h), this.2⟩
+
+theorem okUse_fresh_false {pre D : List String} {x : String} (h : okUse pre D x = true)
+    (h1 : x ∉ D) (h2 : x ∉ pre) (h3 : isPluginConst x = false) : False := by
+  simp only [okUse, Bool.or_eq_true, List.contains_iff_mem] at h
+  rcases h with (h | h) | h
+  · exact h1 h
+  · exact h2 h
+  · rw [h3] at h; cases h
+
+theorem constFree_tail (it : Item) (rest : List Item) (h : constFree (it :: rest) = true) : constFree rest = true := by
+  cases it with
+  | comment s => exact h
+  | ret t => exact h
+  | decl ty n rhs =>
+    simp only [constFree, declNames, List.all_cons, Bool.and_eq_true] at h
+    exact h.2
+
+theorem constFree_mem (items : List Item) (h : constFree items = true) (n : String) (hn : n ∈ declNames items) :
+    isPluginConst n = false := by
+  have := List.all_eq_true.1 h n hn
+  simpa using this
+
+/-- A use-checked right-hand side mentions no name declared later. -/
+theorem wfFrom_rhs_later (pre : List String) (D : List String) (n : String) (rhs : Term) (rest : List Item)
+    (hD : D.contains n = false) (hpre : pre.contains n = false)
+    (huse : ∀ u ∈ rhs.uses, okUse pre D u.1 = true) (hrest : WfFrom pre (n :: D) rest)
+    (hc : isPluginConst n = false) (hcr : constFree rest = true) (x : String) (hm : rhs.mentions x = true) :
+    x ≠ n ∧ x ∉ declNames rest := by
+  obtain ⟨u, hu, hux⟩ := List.mem_map.1 (mem_uses_of_mentions x rhs hm)
+  have hok := huse u hu
+  rw [hux] at hok
+  constructor
+  · intro hxn
+    subst hxn
+    exact okUse_fresh_false hok (by simpa using hD) (by simpa using hpre) hc
+  · intro hx
+    have hf := wfFrom_fresh pre rest (n :: D) hrest x hx
+    exact okUse_fresh_false hok (fun h => hf.1 (List.mem_cons_of_mem _ h)) hf.2 (constFree_mem rest hcr x hx)
+
+theorem wfFrom_layout (pre : List String) : ∀ (items : List Item) (D : List String), WfFrom pre D items →
+    constFree items = true → namesDistinct items = true ∧ noForwardRef items = true
+  | [], _, h, _ => by simp [WfFrom] at h
+  | .comment _ :: _, _, h, _ => by simp [WfFrom] at h
+  | .ret _ :: rest, D, h, _ => by
+      simp only [WfFrom] at h
+      rw [h.1]
+      simp [namesDistinct, noForwardRef, Item.isILDecl]
+  | .decl ty n rhs :: rest, D, h, hc => by
+      simp only [WfFrom] at h
+      obtain ⟨hD, hpre, huse, hrest⟩ := h
+      have hcr := constFree_tail _ _ hc
+      have hcn : isPluginConst n = false := constFree_mem _ hc n (by simp [declNames])
+      have ih := wfFrom_layout pre rest (n :: D) hrest hcr
+      constructor
+      · simp only [namesDistinct, Bool.and_eq_true, Bool.or_eq_true]
+        refine ⟨Or.inr (List.all_eq_true.2 ?_), ih.1⟩
+        intro d hd
+        obtain ⟨hdm, hdi⟩ := List.mem_filter.1 hd
+        have hf := wfFrom_fresh pre rest (n :: D) hrest _ (name_mem_declNames rest d hdm hdi)
+        have hn' : (Item.decl ty n rhs).name = n := rfl
+        rw [hn']
+        simp only [bne_iff_ne, ne_eq]
+        intro he
+        exact hf.1 (by rw [he]; exact List.mem_cons_self)
+      · simp only [noForwardRef, Bool.and_eq_true, Bool.or_eq_true]
+        refine ⟨Or.inr (List.all_eq_true.2 ?_), ih.2⟩
+        intro d hd
+        obtain ⟨hdm, hdi⟩ := List.mem_filter.1 hd
+        simp only [Item.rhs, Bool.not_eq_true']
+        cases hm : rhs.mentions d.name with
+        | false => rfl
+        | true =>
+          exact absurd (name_mem_declNames rest d hdm hdi)
+            (wfFrom_rhs_later pre D n rhs rest hD hpre huse hrest hcn hcr _ hm).2
+
+/-! ### Comments are invisible to the layout predicates and to `buildEnvIL` -/
+
+theorem noComments_comment (s : String) (rest : List Item) : noComments (.comment s :: rest) = noComments rest := rfl
+theorem noComments_ret (t : Term) (rest : List Item) : noComments (.ret t :: rest) = .ret t :: noComments rest := rfl
+theorem noComments_decl (ty n : String) (rhs : Term) (rest : List Item) :
+    noComments (.decl ty n rhs :: rest) = .decl ty n rhs :: noComments rest := rfl
+
+theorem noComments_no_comment (items : List Item) : ∀ it ∈ noComments items, it.isComment = false := by
+  intro it h
+  have := (List.mem_filter.1 h).2
+  cases it <;> simp_all [Item.isComment]
+
+theorem filter_il_noComments : ∀ items : List Item,
+    (noComments items).filter Item.isILDecl = items.filter Item.isILDecl
+  | [] => rfl
+  | .comment s :: rest => by
+      rw [noComments_comment, filter_il_noComments rest]
+      simp [Item.isILDecl]
+  | .ret t :: rest => by
+      rw [noComments_ret, List.filter_cons, List.filter_cons, filter_il_noComments rest]
+  | .decl ty n rhs :: rest => by
+      rw [noComments_decl, List.filter_cons, List.filter_cons, filter_il_noComments rest]
+
+theorem namesDistinct_noComments : ∀ items : List Item, namesDistinct (noComments items) = namesDistinct items
+  | [] => rfl
+  | .comment s :: rest => by
+      rw [noComments_comment, namesDistinct_noComments rest]
+      simp [namesDistinct, Item.isILDecl]
+  | .ret t :: rest => by
+      rw [noComments_ret]
+      simp only [namesDistinct, filter_il_noComments, namesDistinct_noComments rest]
+  | .decl ty n rhs :: rest => by
+      rw [noComments_decl]
+      simp only [namesDistinct, filter_il_noComments, namesDistinct_noComments rest]
+
+theorem noForwardRef_noComments : ∀ items : List Item, noForwardRef (noComments items) = noForwardRef items
+  | [] => rfl
+  | .comment s :: rest => by
+      rw [noComments_comment, noForwardRef_noComments rest]
+      simp [noForwardRef, Item.isILDecl]
+  | .ret t :: rest => by
+      rw [noComments_ret]
+      simp only [noForwardRef, filter_il_noComments, noForwardRef_noComments rest]
+  | .decl ty n rhs :: rest => by
+      rw [noComments_decl]
+      simp only [noForwardRef, filter_il_noComments, noForwardRef_noComments rest]
+
+theorem declNames_noComments : ∀ items : List Item, declNames (noComments items) = declNames items
+  | [] => rfl
+  | .comment s :: rest => by rw [noComments_comment, declNames_noComments rest]; rfl
+  | .ret t :: rest => by rw [noComments_ret]; simp only [declNames, declNames_noComments rest]
+  | .decl ty n rhs :: rest => by rw [noComments_decl]; simp only [declNames, declNames_noComments rest]
+
+theorem constFree_noComments (items : List Item) : constFree (noComments items) = constFree items := by
+  simp only [constFree, declNames_noComments]
+
+theorem buildEnvIL_noComments : ∀ (items : List Item) (env : Env),
+    buildEnvIL (noComments items) env = buildEnvIL items env
+  | [], _ => rfl
+  | .comment s :: rest, env => by rw [noComments_comment, buildEnvIL_noComments rest env]; rfl
+  | .ret t :: rest, env => by rw [noComments_ret]; simp only [buildEnvIL, buildEnvIL_noComments rest]
+  | .decl ty n rhs :: rest, env => by
+      rw [noComments_decl, buildEnvIL_decl, buildEnvIL_decl, buildEnvIL_noComments rest, buildEnvIL_noComments rest]
+
 end Rzil
